@@ -350,7 +350,11 @@ def case_planner(ctx, inp):
     elif op == "plan":
         old, new = [tuple(c) for c in inp["old"]], [tuple(c) for c in inp["new"]]
         old, new = tuple(old), tuple(new)
-        steps = R.plan_rechunk(old, new, inp["itemsize"], inp.get("threshold"), inp.get("bsl"))
+        try:
+            steps = R.plan_rechunk(old, new, inp["itemsize"], inp.get("threshold"), inp.get("bsl"))
+        except Exception as e:
+            ctx.fail(f"plan_rechunk raised {type(e).__name__} for valid old/new chunkings", observed=f"{type(e).__name__}: {e}"[:200])
+            return
         shape = [sum(c) for c in old]
         m = ctx.lean(Sym("graph_size"), [list(c) for c in old], [list(c) for c in new])
         ctx.eq("estimate_graph_size/_number_of_blocks/_largest_block_size", m,
@@ -364,6 +368,19 @@ def case_planner(ctx, inp):
                 break
         if len(steps) > 1:
             ctx.branch(f"plan:{min(len(steps), 4)}-stages")
+        # intermediate stages respect the (adjusted) block size limit
+        import dask
+        from dask.utils import parse_bytes
+        bsl = inp.get("bsl") or dask.config.get("array.chunk-size")
+        bsl = parse_bytes(bsl) if isinstance(bsl, str) else bsl
+        cap = max(bsl / inp["itemsize"], R._largest_block_size(old), R._largest_block_size(new))
+        for st in steps[:-1]:
+            if R._largest_block_size(st) > cap:
+                ctx.fail("plan_rechunk: an intermediate stage has a block larger than block_size_limit "
+                         "(and than every old/new block)", observed=steps)
+                break
+        if inp.get("structured"):
+            ctx.branch("plan:structured")
         for a, b in zip((old,) + tuple(steps), steps):
             mm = ctx.lean(Sym("old_to_new"), [list(c) for c in a], [list(c) for c in b])
             impl = [Sym("ok"), [_plan_py(ax) for ax in R.old_to_new(tuple(map(tuple, a)), tuple(map(tuple, b)))]]
@@ -377,7 +394,7 @@ def case_rechunk(ctx, inp):
     setup_dask()
     old = tuple(tuple(c) for c in inp["old"])
     shape = tuple(sum(c) for c in old)
-    x = (np.arange(int(np.prod(shape)), dtype=inp.get("dtype", "i8")) * 7 % 23).reshape(shape)
+    x = (np.arange(int(np.prod(shape))) * 7 % 23).astype(inp.get("dtype", "i8")).reshape(shape)
     d = da.from_array(x, chunks=old)
     tgt = inp["target"]
     kw = {}
@@ -417,7 +434,7 @@ def case_rechunk(ctx, inp):
         if r.chunks != want:
             ctx.fail("rechunk chunks differ from normalize_chunks of the target", observed=r.chunks, expected=want)
     from props._chunks_util import blocks_match_chunks
-    why = blocks_match_chunks(r)
+    why = blocks_match_chunks(r) if math.prod(len(c) for c in r.chunks) <= 150 else None
     if why:
         ctx.fail("rechunk: " + why, observed=r.chunks)
     if len(shape) == 1 and all(c > 0 for c in r.chunks[0]) and r.chunks[0] != old[0]:
@@ -492,6 +509,38 @@ def _gen_pair(rng, n, zeros=False):
     return g(rng, n), g(rng, n)
 
 
+def _gen_transpose_like(rng):
+    """>= 3 axes: one goes fine -> coarse, one coarse -> fine, one regular -> irregular with a single wide
+    target chunk; block_size_limit just above the larger of the old/new block sizes (forces split+merge passes)."""
+    nd = rng.choice([3, 3, 3, 4])
+    roles = ["f2c", "c2f", "irr"] + [rng.choice(["f2c", "c2f", "irr", "same"]) for _ in range(nd - 3)]
+    rng.shuffle(roles)
+    old, new = [], []
+    for role in roles:
+        if role == "f2c":
+            n = rng.randint(4, 12)
+            old.append([1] * n); new.append([n])
+        elif role == "c2f":
+            n = rng.randint(4, 24)
+            old.append([n]); new.append([1] * n)
+        elif role == "same":
+            c = rand_comp(rng, rng.randint(2, 8))
+            old.append(c); new.append(list(c))
+        else:
+            c, k = rng.randint(2, 12), rng.randint(2, 6)
+            n = c * k
+            wide = rng.randint(c + 1, max(c + 1, n - 2))
+            a = rng.randint(0, n - wide)
+            tgt = [1] * a + [wide] + [1] * (n - wide - a)
+            if rng.random() < 0.3:  # a few more irregular pieces
+                tgt = rand_comp(rng, a) * (a > 0) + [wide] + rand_comp(rng, n - wide - a) * (n - wide - a > 0)
+            old.append([c] * k); new.append(tgt)
+    itemsize = rng.choice([1, 4, 8])
+    lo = max(math.prod(max(c) for c in old), math.prod(max(c) for c in new))
+    bsl = int(lo * itemsize * rng.choice([1, 1, 1.01, 1.25, 1.5, 2, 4]))
+    return old, new, itemsize, bsl, rng.choice([None, None, 1, 2, 3])
+
+
 def generate(ctx):
     rng = ctx.rng
     # --- regression / documented examples -------------------------------------------------
@@ -508,6 +557,13 @@ def generate(ctx):
         for o in cs:
             for w in cs:
                 yield "intersect", {"old": list(o), "new": list(w)}
+    # structured multi-stage stream (function level and API level)
+    for i in range(ctx.n(260, 2600)):
+        old, new, itemsize, bsl, th = _gen_transpose_like(rng)
+        yield "planner", {"op": "plan", "old": old, "new": new, "itemsize": itemsize, "threshold": th, "bsl": bsl, "structured": True}
+        if i % 6 == 0 and math.prod(sum(c) for c in old) <= 12000 and math.prod(len(c) for c in new) <= 1500:
+            yield "rechunk", {"old": old, "target": new, "threshold": th, "block_size_limit": bsl,
+                              "dtype": {1: "i1", 4: "i4", 8: "i8"}[itemsize]}
     # --- _intersect_1d incl. zero-length chunks, unequal sums --------------------------------
     for _ in range(ctx.n(500, 6000)):
         n = rng.randint(0, 40)
@@ -520,7 +576,7 @@ def generate(ctx):
         shape = [rng.randint(1, 15) for _ in range(nd)]
         yield "intersect", {"old": [rand_comp(rng, s) for s in shape], "new": [rand_comp(rng, s) for s in shape]}
     # --- normalize_chunks -------------------------------------------------------------------
-    for _ in range(ctx.n(1200, 15000)):
+    for _ in range(ctx.n(1000, 15000)):
         yield "normalize", _gen_normalize(ctx, rng)
     # --- planner arithmetic -------------------------------------------------------------------
     for _ in range(ctx.n(400, 5000)):
